@@ -270,3 +270,6 @@ func vSnapshot[T vScalar](t *Dense) []T {
 	})
 	return out
 }
+
+// package-level function T is shadowed by the type parameter inside generic harness bodies
+func vApiT(t Tensor, axes ...int) (Tensor, error) { return T(t, axes...) }
